@@ -230,6 +230,30 @@ where
     }
     let mut subscriber = sub_b.open().await?;
     let mut raw_st = raw_subscriber(raw, topic).await?;
+    // the frame-recording subscriber reads all the time (a subscriber that does not read would, through
+    // flow control, hold up the router and with it the subscriber under test)
+    let (stop_tx, mut stop_rx) = tokio::sync::oneshot::channel::<()>();
+    let big = cfg.size_class >= 5;
+    let raw_task = tokio::spawn(async move {
+        let mut lines: Vec<String> = vec![];
+        let mut stopping = false;
+        loop {
+            let wait = if stopping { if big { 1500 } else { 150 } } else { 200 };
+            tokio::select! {
+                _ = &mut stop_rx, if !stopping => { stopping = true; }
+                r = tokio::time::timeout(Duration::from_millis(wait), raw_st.next()) => {
+                    match r {
+                        Ok(Some(Ok(Frame::Message(p)))) => lines.push(format!("raw M {}", hex(&p.message))),
+                        Ok(Some(Ok(Frame::BatchMessage(b)))) => lines.push(format!("raw B {}", hex(&b))),
+                        Ok(Some(Ok(_))) => lines.push("raw O".to_string()),
+                        Ok(_) => break,
+                        Err(_) => { if stopping { break; } }
+                    }
+                }
+            }
+        }
+        lines
+    });
     // let the registrations reach the topic router before the first send
     tokio::time::sleep(Duration::from_millis(60)).await;
     let mut publisher = pub_b.open().await?;
@@ -271,18 +295,10 @@ where
         }
     }
     let _ = writeln!(out, "{}", got);
-    loop {
-        match tokio::time::timeout(Duration::from_millis(if cfg.size_class >= 5 { 4000 } else { 150 }), raw_st.next()).await {
-            Ok(Some(Ok(Frame::Message(p)))) => {
-                let _ = writeln!(out, "raw M {}", hex(&p.message));
-            }
-            Ok(Some(Ok(Frame::BatchMessage(b)))) => {
-                let _ = writeln!(out, "raw B {}", hex(&b));
-            }
-            Ok(Some(Ok(_))) => {
-                let _ = writeln!(out, "raw O");
-            }
-            _ => break,
+    let _ = stop_tx.send(());
+    if let Ok(lines) = raw_task.await {
+        for l in lines {
+            let _ = writeln!(out, "{}", l);
         }
     }
     Ok(())
